@@ -809,7 +809,7 @@ func (fr *Frame) mergePhi(phi *ssa.Phi, b *ssa.BasicBlock, in []edgeIn) Val {
 // loopMods returns the heap names written by the natural loop with header h (from the previous pass).
 func (fr *Frame) loopMods(h *ssa.BasicBlock) map[string]bool {
 	c := fr.c
-	if len(c.blockWritesPrev) == 0 {
+	if c.passNo <= 1 {
 		return nil // first pass: unknown -> havoc everything
 	}
 	body := naturalLoop(h)
